@@ -443,18 +443,19 @@ def layer_dt(ctx):
                           f=(lambda m=m, cfl=cfl, dx=dx: m.timestep([np.array([0.3])], np.array([dx]), cfl)), scale=cfl * dx / abs(a), branch='conv'))
         u = float(ctx.rng.normal() * 10.0 ** ctx.rng.integers(-2, 3)) or 1.0
         mb = impl.burgers.model()
+        nb = float(10.0 ** ctx.rng.integers(-5, 6))     # neighbour cells of very different magnitude: each cell's step is its own
         cases.append(dict(op="k burgersDt %s" % qs([cfl, dx, u]), what='burgers/timestep', inp=dict(u=u, cfl=cfl, dx=dx),
-                          f=(lambda mb=mb, cfl=cfl, dx=dx, u=u: mb.timestep([np.array([u])], np.array([dx]), cfl)), scale=cfl * dx / abs(u), branch='burgers'))
+                          f=(lambda mb=mb, cfl=cfl, dx=dx, u=u, nb=nb: mb.timestep([np.array([u, u * nb, -u * nb * nb])], np.array([dx, dx * 3, dx]), cfl)[:1]), scale=cfl * dx / abs(u), branch='burgers'))
         g = float(ctx.rng.choice([9.81, 1.0])); h = gens.loguni(ctx.rng, 1e-3, 1e3); us = float(ctx.rng.uniform(-3, 3) * np.sqrt(g * h))
         ms = impl.shallowwater.shallowwater1d(g=g)
         cases.append(dict(op="k swDt %s" % qs([g, cfl, dx, h, h * us]), what='sw/timestep', inp=dict(g=g, h=h, q=h * us, cfl=cfl, dx=dx),
-                          f=(lambda ms=ms, cfl=cfl, dx=dx, h=h, us=us: ms.timestep([np.array([h]), np.array([h * us])], np.array([dx]), cfl)),
+                          f=(lambda ms=ms, cfl=cfl, dx=dx, h=h, us=us, nb=nb: ms.timestep([np.array([h, h * nb]), np.array([h * us, -h * us * nb * nb])], np.array([dx, dx * 2]), cfl)[:1]),
                           scale=cfl * dx / (abs(us) + np.sqrt(g * h)), branch='sw'))
         ga = gens.gamma(ctx.rng); r, ue, p = gens.euler_state(ctx.rng, ga)
         E = p / (ga - 1) + .5 * r * ue * ue
         me = impl.euler.euler1d(gamma=ga)
         cases.append(dict(op="k eDt %s" % qs([ga, cfl, dx, r, r * ue, E]), what='euler1d/timestep', inp=dict(gamma=ga, Q=(r, r * ue, E), cfl=cfl, dx=dx),
-                          f=(lambda me=me, cfl=cfl, dx=dx, r=r, ue=ue, E=E: me.timestep([np.array([r]), np.array([r * ue]), np.array([E])], np.array([dx]), cfl)),
+                          f=(lambda me=me, cfl=cfl, dx=dx, r=r, ue=ue, E=E, nb=nb: me.timestep([np.array([r, r * nb]), np.array([r * ue, -r * ue * nb * nb]), np.array([E, E * nb ** 3])], np.array([dx, dx * 2]), cfl)[:1]),
                           scale=cfl * dx / (abs(ue) + np.sqrt(ga * p / r)) * (1 + (ue ** 2 * r / p)), branch='euler1d'))
         th = ctx.rng.uniform(0, 2 * np.pi); ux, uy = float(abs(ue) * np.cos(th)), float(abs(ue) * np.sin(th))
         E2 = p / (ga - 1) + .5 * r * (ux * ux + uy * uy)
